@@ -4,6 +4,7 @@ import EupsModel.Lemmas.ExpandSetup
 import EupsModel.Lemmas.ExpandTable
 import EupsModel.Lemmas.ExpandCovered
 import EupsModel.Lemmas.ExpandReader
+import EupsModel.Lemmas.ExpandUnsetup
 /-! C17 — an expanded table file reproduces the build-time versions exactly.  Property theorems only
 (the model is `Model/Expand.lean`, helper lemmas are in `Lemmas/Expand.lean`).
 
@@ -1042,6 +1043,17 @@ theorem C17_unsetup_command_verbatim (A : Answers) (o : Opts) (c : Nat) (cs : St
     subGo A o 0 (c :: cs) = (subGo A o (m.len - 1) cs).map (fun rest => (c :: cs).take m.len ++ rest) := by
   simp only [subGo, hm, hu, if_true, bind, Except.bind, pure, Except.pure]
   cases subGo A o (m.len - 1) cs <;> rfl
+
+/-- **`C17_unsetup_line_kept`: the repair of D73 at the level of the text.**  The line `unsetupRequired(args)` /
+`unsetupOptional(args)` (`unsetupLine opt args`, with its newline) — for every argument text without a double quote, `#` or
+newline: product names, flags, versions, parentheses, anything — is read as a line of a setup block that is kept exactly as
+written and names no product, whatever is set up and whatever the options. -/
+theorem C17_unsetup_line_kept (A : Answers) (o : Opts) (opt : Bool) (args : Str)
+    (hq : 34 ∉ args) (hh : 35 ∉ args) (hn : 10 ∉ args) :
+    classify A o (unsetupLine opt args) = .ok (.setup (unsetupLine opt args) none) :=
+  classify_unsetupLine A o opt hq hh hn
+
+example : unsetupLine false (str! "b -j") = str! "unsetupRequired(b -j)\n" := by decide
 
 /-- the search with the pattern of the pinned tree, `(setupRequired|setupOptional)\(…\)` without the optional `un` -/
 def searchRexPinned : Str → Option RexMatch
